@@ -54,6 +54,12 @@ def _spk(case, script):
 
 
 def run_case(ctx, case):
+    from props import wallet_util as _wu
+    with _wu.deterministic_gc():
+        return _run_case_inner(ctx, case)
+
+
+def _run_case_inner(ctx, case):
     import os
     from props import wallet_util as wu
     from bitcoinlib.wallets import Wallet
